@@ -37,6 +37,19 @@ Arguments R (frame ns pre nd)%Z d%uint63 (mean delta resid nc)%Z c%uint63.
 Arguments MX (rows cols)%Z bits%uint63.
 Arguments FF {H} h (size hlen n)%Z body%uint63.
 
+(* large bodies / matrices (an OFF model of several MiB): lossless run-length form, long runs of zero bytes are
+   not spelled out *)
+Inductive bpart := PRaw (n : Z) (l : list int) | PZero (n : Z).
+Arguments PRaw n%Z l%uint63.
+Definition part_bytes (p : bpart) : list Z :=
+  match p with PRaw n l => UB n l | PZero n => repeat 0 (Z.to_nat n) end.
+Definition FFp {H} (h : H) (size hlen : Z) (parts : list bpart) : fobs H :=
+  FFile h size hlen (flat_map part_bytes parts).
+(* a matrix whose entries after the first [n] are all +0.0 *)
+Definition MXpad (rows cols n : Z) (bits : list int) : matrix :=
+  mkmat rows cols (UW 8 n bits ++ repeat 0 (Z.to_nat (rows * cols - n))).
+Arguments MXpad (rows cols n)%Z bits%uint63.
+
 (* ---------------- cases ---------------- *)
 Inductive case :=
 | CW22 (t : hdr22) (tbn tbd : Z) (h : list (wop * wret)) (f : fobs hdr22)
